@@ -43,7 +43,7 @@ def parseVal (cfg : Config) (leaf : Leaf) (w : String) : Option Val :=
     let name ← stringOfHex? (String.ofList rest)
     match leaf with
     | .reg c => do
-      let rc ← cfg.regClasses.find? (·.name == c)
+      let rc ← cfg.regClasses[c]?
       let r ← rc.regs.find? (·.name == name)
       pure (.reg r)
     | _ => none
@@ -73,7 +73,7 @@ def fitsB (cfg : Config) : List Leaf → List Val → Bool
   | .ws _ :: ls, vs => fitsB cfg ls vs
   | .glyph _ :: ls, vs => fitsB cfg ls vs
   | .reg c :: ls, .reg r :: vs =>
-      (match cfg.regClasses.find? (·.name == c) with
+      (match cfg.regClasses[c]? with
        | some rc => rc.regs.contains r
        | none => false) && fitsB cfg ls vs
   | .int :: ls, .int _ :: vs => fitsB cfg ls vs
@@ -99,7 +99,7 @@ def step (line : String) : String :=
   | "render" :: key :: ch :: chs :: vals =>
     match findCfg key, stringOfHex? ch, natList? chs with
     | some cfg, some cls, some choices =>
-      match lookup cfg.syntaxes cls with
+      match lookupName cfg.syntaxes cls with
       | none => "err NoSuchClass"
       | some d =>
         match expandChoice cfg.syntaxes expandFuel d.elems choices with
